@@ -211,3 +211,33 @@ def C18(run):
                        "Wire.tla and compared with the content. Non-trivial = more than one entry / item; distinct by content.")
     run.assumptions += ["Go-side equality flags (decoder output == content) are trusted; the byte-level oracle is the TLA+ decoder",
                         "64-bit numbers are compared as 7-bit limb lists", "the standard encoder/decoder are skipped for non-UTF-8 keys (they reject them)"]
+
+
+def C17(run):
+    # TLC enumerates the universe of structurally arbitrary requests and exports one JSON line per state
+    exp = _t(run, "requests.ndjson")
+    res = run.tlc("Validate", "Validate_export.cfg", env={"VERIF_EXPORT": exp}, workers=1, timeout=600)
+    if not res["completed"] or not os.path.exists(exp):
+        raise vlib.Infra("request universe export failed:\n" + res["out"][-2000:])
+    run.cov["states"] += res.get("distinct", 0)
+    run.cov["transitions"] += res.get("generated", 0)
+    tr = _t(run, "validate.ndjson")
+    info = run.harness("validate", tr, extra=["-in", exp])
+    if info.get("stopped_after_hangs"):
+        run.cov["note"] = "driver stopped early after %d hangs (each leaves a spinning goroutine)" % info["stopped_after_hangs"]
+    v = run.validate_sharded("TraceValidate", tr, boundary='"k":', shards=12)
+    run.judge(v, tr, "validate", only="C17:")
+    run.sample(tr, pick={5, 40000, info["records"] - 1})
+    run.cov["distinct_nontrivial"] = info["distinct_nontrivial"]
+    run.cov["exhaustive"] = False
+    run.cov["rule"] = ("the request universe of Validate.tla, enumerated by TLC and exported (48,690 requests: one sane module + one module "
+                       "arbitrary in every field; two modules with arbitrary kinds / single inputs incl. self and dangling references, "
+                       "wrong kinds, absent oneof, nil inner messages; arbitrary environment: output module, start, stop, cursor, mode, "
+                       "duplicate names, 0..2 binaries, binary type, nil module list, nil module entry), each materialised as a real "
+                       "Request and pushed through ValidateTier1Request, NewOutputModuleGraph, BuildRequestDetails, "
+                       "ValidateRequestStartBlock, BuildTier1RequestPlan (tier1 order and error wrapping, 2 s watchdog, recover) and through "
+                       "ValidateTier2Request + NewOutputModuleGraph; plus seeded random requests of up to 105 modules x 32 inputs. "
+                       "Non-trivial = request that passes the first validation step; distinct by content.")
+    run.assumptions += ["robustness exploration with a model-derived input space: no proof of totality",
+                        "heap ceiling sampled (1 in 200 requests), watchdog 2 s"]
+    run.level = "exploration"
